@@ -51,6 +51,30 @@ def big_expr(n, k=0):
     return f"({lit(n)}+2^64-2^64)" if k % 2 == 0 else f"({lit(n)}//1)"
 
 
+SPELLINGS = ("lit", "addsub", "floordiv", "shift0", "pow2")
+
+
+def spell_int(n, how):
+    """an expression whose value is n; 'lit' gives the machine-word (Small) representation for i64 values, every
+    other spelling the BigInt (Big) representation (what ^, //, <<, mixed arithmetic return; probed with is_big)"""
+    if how == "lit":
+        return lit(n)
+    if how == "addsub":
+        return f"({lit(n)}+2^64-2^64)"
+    if how == "floordiv":
+        return f"({lit(n)}//1)"
+    if how == "shift0":
+        return f"({lit(n)} << 0)"
+    if how == "pow2":
+        m = abs(n)
+        if m < 2:
+            return f"({lit(n)}+2^64-2^64)"
+        k = m.bit_length() - 1
+        e = f"(2^{k}+{m - (1 << k)})"
+        return e if n > 0 else f"(0-{e})"
+    raise ValueError(how)
+
+
 def cps(s):
     return ",".join(str(ord(c)) for c in s) if s else "_"
 
@@ -157,20 +181,20 @@ def nfloat(x, rng=None):
     return r if (rng is not None and rng.random() < 0.5) else r.replace("e+", "e")
 
 
-def nlit(v, rng=None):
-    """JSON-shaped Python value as a Noulith literal"""
+def nlit(v, rng=None, ints=None):
+    """JSON-shaped Python value as a Noulith expression; ints(n) spells the integers (default: literal text)"""
     if v is None:
         return "null"
     if isinstance(v, int):
-        return str(v)
+        return str(v) if ints is None else ints(v)
     if isinstance(v, float):
         return nfloat(v, rng)
     if isinstance(v, str):
         return nstr(v, rng)
     if isinstance(v, list):
-        return "[" + ", ".join(nlit(x, rng) for x in v) + "]"
+        return "[" + ", ".join(nlit(x, rng, ints) for x in v) + "]"
     if isinstance(v, dict):
-        return "{" + ", ".join(f"{nstr(k, rng)}: {nlit(x, rng)}" for k, x in v.items()) + "}"
+        return "{" + ", ".join(f"{nstr(k, rng)}: {nlit(x, rng, ints)}" for k, x in v.items()) + "}"
     raise ValueError(v)
 
 
@@ -559,7 +583,8 @@ def gen_json_value(rng, depth, strings):
         if k < 0.12:
             return None
         if k < 0.45:
-            return rng.choice([0, 1, -1, 7, -12, 255, 2 ** 31, -2 ** 31, 2 ** 53 + 1, I63 - 1, -I63, rng.randint(-I63, I63 - 1), rng.randint(-1000, 1000)])
+            return rng.choice([0, 1, -1, 7, -12, 255, 2 ** 31, -2 ** 31, 2 ** 53 + 1, -2 ** 53 - 1, 2 ** 62 + 1, -2 ** 62 - 1, I63 - 1, -I63 + 1, -I63,
+                               rng.randint(-I63, I63 - 1), rng.randint(-1000, 1000)])
         if k < 0.7:
             if rng.random() < 0.5:
                 return rng.choice(FLOATS)
@@ -586,6 +611,58 @@ def text_has_exp_plus(text):
     return re.search(r"[0-9][eE]\+[0-9]", bare) is not None
 
 
+JSON_INTS = sorted({0, 1, -1, 2, 3, -3, 8, 1024, 2 ** 31, -2 ** 31, 2 ** 31 - 1, 2 ** 32, 2 ** 53 - 1, 2 ** 53, 2 ** 53 + 1, -2 ** 53 - 1,
+                    -2 ** 53 + 1, 2 ** 62, 2 ** 62 + 1, -2 ** 62 - 1, I63 - 1, -I63 + 1, -I63})
+
+
+def has_int(v):
+    if isinstance(v, int):
+        return True
+    if isinstance(v, list):
+        return any(has_int(x) for x in v)
+    if isinstance(v, dict):
+        return any(has_int(x) for x in v.values())
+    return False
+
+
+def only_ints_lists(v):
+    return v is None or isinstance(v, int) or (isinstance(v, list) and all(only_ints_lists(x) for x in v))
+
+
+def json_compact(v):
+    return json.dumps(v, separators=(",", ":"))
+
+
+def gen_json_ints(ctx):
+    """64-bit integers in BOTH representations, alone and nested: json_encode must write the integer (never a
+    float), the text must be what Python writes, and json_decode(json_encode(v)) == v"""
+    rng, cases = ctx.rng, []
+    ints = list(JSON_INTS)
+    for _ in range(ctx.n(25, 300)):
+        ints.append(rng.choice([rng.randint(-I63, I63 - 1), rng.randint(-2 ** 54, 2 ** 54), rng.randint(-1000, 1000)]))
+    for n in ints:
+        for how in SPELLINGS:
+            X = spell_int(n, how)
+            rep = "S" if how == "lit" else "B"
+            cases.append(case("render-probe", f"is_big({X})", nt=False, rep=rep))
+            t = json_compact(n)
+            tn = json_compact([n, {"k": [n]}])
+            cases.append(case("json-int-repr",
+                              f"x := {X}; [json_encode(x), json_decode(json_encode(x)) == x, json_decode(json_encode(x)), "
+                              f"json_encode([x, {{\"k\": [x]}}]), json_decode(json_encode([x, {{\"k\": [x]}}])) == [x, {{\"k\": [x]}}], "
+                              f"json_decode(json_encode({{\"a\": x}}))]",
+                              expect=f"ok L[{S(t)},I1,I{n},{S(tn)},I1,D{{S\"a\":I{n}}}]", nt=True, rep=rep, neg=n < 0))
+            # str / $ / repr / format of the same value nested in containers
+            cases.append(case("render-nested",
+                              f"x := {X}; [str([x, [x]]), \"\" $ [x], repr([x, {{\"k\": x}}]), str({{\"k\": x}}), F\"{{[x]}}\", str({{x: x}}), repr(x)]",
+                              expect="ok L[" + ",".join(S(z) for z in (f"[{n}, [{n}]]", f"[{n}]", f"[{n}, {{\"k\": {n}}}]", f"{{\"k\": {n}}}", f"[{n}]",
+                                                                        f"{{{n}: {n}}}", f"{n}")) + "]", nt=True, rep=rep, neg=n < 0))
+    # just outside the 64-bit range json_encode goes through f64 (not part of the property): no crash, and the text is a JSON number
+    for n in (I63, -I63 - 1, 2 ** 64, 10 ** 30):
+        cases.append(case("json-int-repr", f"json_encode({lit(n)})", check="jsontext:" + canon(float(n)), nt=True))
+    return cases
+
+
 def gen_json(ctx):
     rng, cases = ctx.rng, []
     vals = [None, 0, -1, I63 - 1, -I63, 0.5, -0.0, 1e21, "", "a\"b\\c", [], {}, [[]], {"": {}}, [1, [2, [3, [4, [5]]]]],
@@ -603,6 +680,22 @@ def gen_json(ctx):
             cases.append(case("json-decode", f"json_decode({nstr(json.dumps(v, ensure_ascii=ea), rng)})", expect=f"ok {c}", nt=nt))
         cases.append(case("repr-eval", f"repr({V})", check="evalrepr:" + c, nt=nt))
         cases.append(case("literal", V, expect=f"ok {c}", nt=nt))
+        if has_int(v):
+            # the same value with its integers in the Big representation, and in a random mix of both
+            for mode in ("big", "mixed"):
+                if mode == "big":
+                    sp = lambda n: spell_int(n, rng.choice(SPELLINGS[1:]))
+                else:
+                    sp = lambda n: spell_int(n, rng.choice(SPELLINGS))
+                VB = nlit(v, rng, sp)
+                cases.append(case("json-roundtrip", f"v := {VB}; [json_decode(json_encode(v)), json_decode(json_encode(v)) == v]",
+                                  expect=f"ok L[{c},I1]", nt=True, rep="B"))
+                cases.append(case("json-encode", f"json_encode({VB})", check="jsontext:" + c, nt=True, rep="B"))
+                if only_ints_lists(v):
+                    cases.append(case("json-encode", f"json_encode({VB})", expect="ok " + S(json_compact(v)), nt=True, rep="B"))
+                cases.append(case("repr-eval", f"repr({VB})", check="evalrepr:" + c, nt=True, rep="B"))
+                if pr:
+                    cases.append(case("json-as-literal", f"json_encode({VB})", check="evaltext:" + c, nt=True, lit=True, rep="B"))
         if pr:
             txt = json.dumps(v, ensure_ascii=False)
             cases.append(case("json-as-literal", txt, expect=f"ok {c}", nt=nt, lit=True))
@@ -664,7 +757,7 @@ def gen_render(ctx):
 
 def gen_cases(ctx):
     cases = []
-    for g in (gen_radix, gen_intstr, gen_rational, gen_bytes, gen_unicode, gen_json, gen_render):
+    for g in (gen_radix, gen_intstr, gen_rational, gen_bytes, gen_unicode, gen_json, gen_json_ints, gen_render):
         cases += g(ctx)
     return cases
 
@@ -865,7 +958,8 @@ def run(ctx):
         "model_lines": sum(len(c["m"]) for c in cases),
         "oracle_compared": sum(1 for c in cases if c["expect"] is not None or c.get("check")),
         "negative_rationals": sum(1 for c in cases if c["fam"] == "rational" and c.get("neg")),
-        "big_representation_renders": sum(1 for c in cases if c.get("rep") == "B" and c["fam"] == "render"),
+        "big_representation_renders": sum(1 for c in cases if c.get("rep") == "B" and c["fam"] in ("render", "render-nested")),
+        "big_representation_json": sum(1 for c in cases if c.get("rep") == "B" and c["fam"].startswith(("json", "repr-eval"))),
         "representation_confirmed_by_is_big": {
             "spelled_big_and_is_big": sum(1 for c in cases if c["fam"] == "render-probe" and c.get("rep") == "B" and c["impl"] == "ok I1"),
             "spelled_small_and_not_big": sum(1 for c in cases if c["fam"] == "render-probe" and c.get("rep") == "S" and c["impl"] == "ok I0"),
